@@ -22,7 +22,7 @@ def sampled_indices(X, r):
     fs = (r.numerator * n) // r.denominator
     vals, counts = np.unique(X, return_counts=True)
     q = fs // len(vals) if len(vals) else 0
-    if q == 0 or not (r < 1):
+    if q == 0:
         return q, np.arange(n, dtype=np.int64), vals, counts
     order = np.argsort(X, kind="stable")
     starts = np.cumsum(counts) - counts
@@ -43,6 +43,8 @@ def model(Y, X, r, c):
     """-> (quota, idx, terms) with terms = [n, classes, [[cnt, real, spoof], ...], corr, [num, den]] (zeros dropped, as enc_terms)"""
     n = len(X)
     q, idx, vals, counts = sampled_indices(X, r)
+    if not (r < 1):                      # entry_indices: approximation_factor >= 1.0 -> no subsampling at all
+        idx = np.arange(n, dtype=np.int64)
     Xs, Ys = X[idx], Y[idx]
     m = len(idx)
     cvals, ccounts = np.unique(Ys, return_counts=True)
